@@ -1,5 +1,6 @@
 import Driver.Loop
 import PyGqlModel.Visit
+import PyGqlModel.VisitShape
 import PyGqlModel.Spec.VisitSpec
 import PyGqlModel.Generated.VisitTable
 open PyGql PyGql.Visit
@@ -111,6 +112,10 @@ def handle (j : J) : J :=
       else
         .obj [("ret", J.ofOpt nodeToJson o.ret), ("orig", nodeToJson o.orig),
               ("log", logToJson o.st), ("top", .arr (o.tr.map evToJson))]
+  | "shape" =>
+    -- hypothesis `WellShaped` of `wellShaped_visit_ok` (Props/C18_shape.lean), evaluated on a document of the correspondence
+    let t := nodeOfJson (j.getD "tree")
+    .obj [("shape", .bool (wellShapedAt Generated.VisitTable.table t.depth t))]
   | "spec_events" =>
     .obj [("events", .arr ((Spec.events (nodeOfJson (j.getD "tree"))).map evToJson))]
   | "edit" =>
